@@ -622,13 +622,34 @@ class Engine:
         raise Unsupported('except spec %r' % (tv,))
 
     def stmt_With(self, s, st):
+        """`with cm as x:` for context managers that do not swallow exceptions (executors,
+        pools, files): enter binds x, the body runs, the contract's with_exit hook records
+        the exit for every way of leaving the block."""
         h = self.ctx_hook('with_stmt', s, st)
         if h is not None:
             return h
-        raise Unsupported('with statement')
+        if len(s.items) != 1:
+            raise Unsupported('with statement with several items')
+        item = s.items[0]
+        res = []
+        for st2, cm in self.eval(item.context_expr, st):
+            ent = self.ctx_hook('with_enter', st2, cm)
+            if ent is None:
+                raise Unsupported('with statement on %r' % (cm,))
+            for st3, val in ent:
+                sts = [st3]
+                if item.optional_vars is not None:
+                    sts = self.assign(item.optional_vars, val, st3)
+                for st4 in sts:
+                    for o in self.exec_block(s.body, st4):
+                        self.ctx_hook('with_exit', o.st, cm, o)
+                        res.append(o)
+        return res
 
     def stmt_FunctionDef(self, s, st):
-        st.env[s.name] = ClosureV(s, None, s.name)
+        c = ClosureV(s, None, s.name)
+        c.decorators = [ast.unparse(d) for d in s.decorator_list]
+        st.env[s.name] = c
         return [Outcome('normal', st)]
 
     # ---- yield
@@ -702,6 +723,8 @@ class Engine:
             return self._stream_descr(sv)
         if isinstance(it, StreamV):
             return self._stream_descr(it.view)
+        if isinstance(it, GenStreamV):
+            return it.length, it.elem
         if isinstance(it, ObjV):
             h = self.ctx_hook('iter_obj_descr', st, it)
             if h is not None:
@@ -768,6 +791,7 @@ class Engine:
                 return stx.out_n == out_entry + k
             S = SView(self, stx, ordinal)
             S.out_entry = out_entry
+            S.entry = SView(self, st, None)
             return inv(S)
 
         # 1. initiation
@@ -783,6 +807,8 @@ class Engine:
         hav = st.fork()
         for nme in sorted(names | mutated):
             if nme in hav.env:
+                if isinstance(hav.env[nme], (QueueV, IterV)) and nme not in names:
+                    continue      # reference stays, the heap cell is havocked below
                 nv = fresh_like(hav.env[nme], nme)
                 if nv is None:
                     nv = self.ctx_hook('havoc_value', hav, nme, hav.env[nme])
@@ -800,6 +826,20 @@ class Engine:
                 if nv is None:
                     raise Unsupported('cannot havoc field %s' % fld)
                 hav.heap[self.self_oid][fld] = nv
+        for nme in sorted(names | mutated):
+            v = hav.env.get(nme)
+            if isinstance(v, IterV):
+                hav.heap[v.oid]['pos'] = IntV(smt.fresh('itpos', smt.Int))
+                hav.heap[v.oid]['done'] = BoolV(smt.fresh('itdone', smt.Bool))
+            if isinstance(v, QueueV):
+                hav.heap[v.oid]['arr'] = smt.fresh('qarr', z3.ArraySort(smt.Int, smt.Obj))
+                hav.heap[v.oid]['head'] = IntV(smt.fresh('qhead', smt.Int))
+                hav.heap[v.oid]['tail'] = IntV(smt.fresh('qtail', smt.Int))
+        for gk, gv in list(hav.ghost.items()):
+            if isinstance(gv, IntV):
+                hav.ghost[gk] = IntV(smt.fresh('g_' + gk, smt.Int))
+            elif z3.is_expr(gv) and z3.is_array(gv):
+                hav.ghost[gk] = smt.fresh('g_' + gk, gv.sort())
         self.ctx_hook('havoc_heap', hav, ordinal, names, mutated)
         if yield_each or _has_yield(stmts):
             hav.out_n = smt.fresh('out_n', smt.Int)
@@ -987,7 +1027,8 @@ class Engine:
         if isinstance(recv, ModuleV):
             return [(st, self.module_attr(recv, attr))]
         if isinstance(recv, (ListV, SymSeqV, TupleV, CellListV, BuiltinV, ClassV, ClosureV, FnV, ObjV,
-                             StageV, IterV, StreamV, ExcV, StrV, KeyV, OpaqueV, DictV, DSTupleV, SymDictV, SuperV)):
+                             StageV, IterV, StreamV, ExcV, StrV, KeyV, OpaqueV, DictV, DSTupleV, SymDictV, SuperV, QueueV,
+                             GenStreamV)):
             if isinstance(recv, ClassV) and attr == '__name__':
                 return [(st, OpaqueStrV())]
             if isinstance(recv, SymSeqV) and attr == 'ndim':
@@ -1068,6 +1109,7 @@ class Engine:
         if h is not None:
             return h
         if isinstance(f, FnV):
+            args, kwargs = self.flatten_args(args, kwargs)
             return self.call_userfn(f, args, kwargs, st)
         if isinstance(f, BuiltinV):
             return self.call_builtin(f.name, args, kwargs, st, node)
@@ -1090,13 +1132,56 @@ class Engine:
                 Out(smt.APP_R(f.t, x), exc=ExcV(smt.APP_E(f.t, x)))]
         return self.apply_outs(st, outs)
 
+    def symbolic_apply(self, f, argvals, st):
+        """Outcomes of calling `f(*argvals)` from state st, as interface Outs (condition =
+        what the call added to the path condition).  Effects on the state are dropped: only
+        for calls that are pure apart from the effect log."""
+        probe = st.fork()
+        base = len(probe.pc)
+        res, raised = self.with_sink(lambda: self.call(f, list(argvals), {}, probe))
+        outs = []
+        for s2, v in res:
+            extra = s2.pc[base:]
+            outs.append(Out(z3.And(*extra) if extra else smt.T, value=v))
+        for o in raised:
+            extra = o.st.pc[base:]
+            outs.append(Out(z3.And(*extra) if extra else smt.T, exc=o.exc))
+        return outs
+
     def log_effect(self, st, ev):
         st.ghost['log'] = st.ghost.get('log', ()) + (ev,)
+
+    def flatten_args(self, args, kwargs):
+        out = []
+        for a in args:
+            if isinstance(a, tuple) and a and a[0] == '*':
+                v = a[1]
+                if isinstance(v, TupleV):
+                    out.extend(v.items)
+                elif isinstance(v, ListV) and z3.is_true(z3.simplify(z3.Length(v.seq) == 0)):
+                    pass
+                else:
+                    out.append(a)
+            else:
+                out.append(a)
+        kw = dict(kwargs)
+        if '**' in kw and isinstance(kw['**'], EmptyDictV):
+            del kw['**']
+        return out, kw
 
     def call_closure(self, f, args, kwargs, st):
         if isinstance(f.node, ast.Lambda):
             raise Unsupported('lambda call')
-        outs = self.run_body(f.node, args, kwargs, st, closure_env=None)
+        args, kwargs = self.flatten_args(args, kwargs)
+        saved_ord, saved_fn = self.ordinals, self.fn
+        sub = _loop_ordinals(f.node)
+        self.ordinals = dict(self.ordinals)
+        for nd, o in sub.items():
+            self.ordinals[nd] = '%s.%s' % (f.node.name, o)
+        try:
+            outs = self.run_body(f.node, args, kwargs, st, closure_env=None)
+        finally:
+            self.ordinals = saved_ord
         res = []
         for o in outs:
             if o.kind == 'return':
@@ -1210,6 +1295,16 @@ class Engine:
             if q is None:
                 raise Unsupported('super().%s' % name)
             return self.inline_call(q, [recv.inst] + args, kwargs, st)
+        if isinstance(recv, QueueV):
+            return self.queue_method(recv, name, args, kwargs, st, node)
+        if isinstance(recv, OpaqueV):
+            h = self.ctx_hook('opaque_method', st, recv, name, args, kwargs)
+            if h is not None:
+                return h
+        if isinstance(recv, ObjV):
+            h = self.ctx_hook('obj_method', st, recv, name, args, kwargs)
+            if h is not None:
+                return h
         if isinstance(recv, ListV):
             return self.list_method(recv, name, args, st, node)
         if isinstance(recv, SymSeqV):
@@ -1541,6 +1636,71 @@ class Engine:
                 t = t + i.t
             return [(st, IntV(t))]
         raise Unsupported('sum(%r)' % (x,))
+
+    def bi_queue_Queue(self, args, kwargs, st, node):
+        oid = self.new_oid()
+        ms = args[0] if args else kwargs.get('maxsize')
+        st.heap[oid] = {'arr': smt.fresh('qarr', z3.ArraySort(smt.Int, smt.Obj)), 'head': IntV(0), 'tail': IntV(0),
+                        'maxsize': ms}
+        return [(st, QueueV(oid))]
+
+    def queue_method(self, q, name, args, kwargs, st, node):
+        cell = st.heap[q.oid]
+        head, tail = cell['head'].t, cell['tail'].t
+        if name == 'qsize':
+            return [(st, IntV(tail - head))]
+        if name == 'empty':
+            return [(st, BoolV(tail == head))]
+        if name == 'put':
+            (x,) = args
+            if not isinstance(x, ObjV):
+                raise Unsupported('queue.put(%r)' % (x,))
+            if cell['maxsize'] is not None:
+                h = self.ctx_hook('queue_put_bounded', st, q, x)
+                if h is not None:
+                    return h
+                raise Unsupported('put on a bounded queue outside the concurrent model')
+            st.heap[q.oid]['arr'] = z3.Store(cell['arr'], tail, x.t)
+            st.heap[q.oid]['tail'] = IntV(tail + 1)
+            return [(st, NONE)]
+        if name in ('get', 'get_nowait'):
+            block = kwargs.get('block', args[0] if args else BoolV(name == 'get'))
+            res = []
+            for s2, nonempty in self.branch(st, tail > head):
+                if nonempty:
+                    s2.heap[q.oid]['head'] = IntV(head + 1)
+                    res.append((s2, ObjV(z3.Select(cell['arr'], head))))
+                else:
+                    if z3.is_true(z3.simplify(self.truth(block))):
+                        # a blocking get on an empty queue that nobody fills never returns
+                        self.oblige('queue.get:never-blocks-forever', s2, smt.F, 'assert')
+                    else:
+                        self.raise_(s2, self.new_exc(s2, 'Empty'))
+            return res
+        raise Unsupported('queue.%s' % name)
+
+    def _minmax(self, args, st, is_max):
+        if len(args) == 1 and isinstance(args[0], TupleV):
+            args = args[0].items
+        if len(args) >= 2 and all(isinstance(a, (IntV, RealV)) for a in args) and not any(
+                isinstance(a, RealV) for a in args):
+            t = args[0].t
+            for a in args[1:]:
+                t = z3.If((a.t > t) if is_max else (a.t < t), a.t, t)
+            return [(st, IntV(t))]
+        if len(args) >= 2 and all(isinstance(a, (IntV, RealV)) for a in args):
+            ts = [z3.ToReal(a.t) if isinstance(a, IntV) else a.t for a in args]
+            t = ts[0]
+            for a in ts[1:]:
+                t = z3.If((a > t) if is_max else (a < t), a, t)
+            return [(st, RealV(t))]
+        raise Unsupported('%s%r' % ('max' if is_max else 'min', args))
+
+    def bi_max(self, args, kwargs, st, node):
+        return self._minmax(args, st, True)
+
+    def bi_min(self, args, kwargs, st, node):
+        return self._minmax(args, st, False)
 
     def bi_iter(self, args, kwargs, st, node):
         (x,) = args
@@ -1921,6 +2081,14 @@ class Engine:
             res.append((s, TupleV(vs, True)))
         return res
 
+    def expr_Dict(self, node, st):
+        if not node.keys:
+            return [(st, EmptyDictV())]
+        h = self.ctx_hook('dict_display', st, node)
+        if h is not None:
+            return h
+        raise Unsupported('dict display')
+
     def expr_Lambda(self, node, st):
         return [(st, ClosureV(node, None))]
 
@@ -2043,6 +2211,28 @@ class ItemGetterV(Val):
     def __init__(self, idx, single=None):
         self.idx = idx
         self.single = single
+
+
+class GenStreamV(Val):
+    """A stream whose element k is given by arbitrary interface outcomes elem(k) -> [Out]."""
+    kind = 'genstream'
+
+    def __init__(self, length, elem, desc=''):
+        self.length = length
+        self.elem = elem
+        self.desc = desc
+
+
+class EmptyDictV(Val):
+    kind = 'emptydict'
+
+
+class QueueV(Val):
+    """queue.Queue: FIFO in the heap as (arr: Int->Obj, head, tail, maxsize)."""
+    kind = 'queue'
+
+    def __init__(self, oid):
+        self.oid = oid
 
 
 class SuperV(Val):
